@@ -228,7 +228,11 @@ def history_task(task, tr):
             k = len(calls)
             calls.append(k)
             x = args[0]
-            return torch.full(tuple(x._v.shape), bool(oracle_bits[min(k, nsteps - 1)]))
+            bit = oracle_bits[min(k, nsteps - 1)]
+            if isinstance(bit, tuple):  # one verdict per sample: only some samples underflow
+                out = torch.tensor([bool(b_) for b_ in bit]).reshape(-1, *([1] * (x._v.dim() - 1)))
+                return out.expand(tuple(x._v.shape)).clone()
+            return torch.full(tuple(x._v.shape), bool(bit))
 
         goals = []
         flags = []
@@ -263,7 +267,7 @@ def history_task(task, tr):
         expect = []
         on = False
         for bit in oracle_bits:
-            on = on or bool(bit)
+            on = on or (any(bit) if isinstance(bit, tuple) else bool(bit))
             expect.append(on)
         goals.append(Goal('rescale flag: switched on by the first underflow verdict and never switched off',
                           d.bconst(flags == expect), signature='TreeLikelihoodModel:history:rescale-flag'))
@@ -297,7 +301,12 @@ def history_replay(oracle_bits, tip_states, batched, vals):
     def fake(x):
         i = k[0]
         k[0] += 1
-        return torch.full(tuple(x.shape), bool(oracle_bits[min(i, len(oracle_bits) - 1)]))
+        bit = oracle_bits[min(i, len(oracle_bits) - 1)]
+        if isinstance(bit, tuple):
+            return torch.tensor([bool(b_) for b_ in bit]).reshape(-1, *([1] * (x.dim() - 1))).expand(tuple(x.shape)).clone()
+        return torch.full(tuple(x.shape), bool(bit))
+
+    on = False
 
     try:
         for s in range(len(oracle_bits)):
@@ -313,6 +322,11 @@ def history_replay(oracle_bits, tip_states, batched, vals):
             ref = ref_model()
             if val.shape != ref.shape or not torch.allclose(val, ref, rtol=1e-9, atol=1e-12):
                 return True, f'evaluation {s + 1}: returned {val.tolist()} but the reference is {ref.tolist()}'
+            bit = oracle_bits[s]
+            on = on or (any(bit) if isinstance(bit, tuple) else bool(bit))
+            if bool(like.rescale) != on:
+                return True, (f'evaluation {s + 1}: underflow verdicts so far {list(oracle_bits[:s + 1])} but the rescale flag is '
+                              f'{like.rescale} (an underflow in any sample must switch rescaling on, and it must stay on)')
     except Exception as e:
         return True, f'raised {type(e).__name__}: {e}'
     return False, 'agree'
@@ -417,8 +431,133 @@ def api_confirmation(sizes=(524, 527, 530, 533, 536)):
     return False, f'largest relative error found {err:.2e}', None
 
 
+def fpscalers_task(task, tr):
+    """floating point, rescaled path: with the per-node scalers as free normal floats in (0,1], no argument of a log
+    that depends on the scalers alone may underflow (the accumulated scalers must enter as a sum of logs, never as the
+    log of a product)"""
+    from symtorch import fp, smt
+    from symtorch.tensor import wrap
+    from torchtree.evolution import tree_likelihood as tl
+
+    _, kernel = task
+    label = f'floating point: {kernel}, scalers as free normal floats'
+    tr.fn(getattr(tl, kernel))
+    S, K, N = 2, 1, 1
+    tip_states = 'tip_states' in kernel
+    saved = HANDLERS['max']
+    with tracing() as t:
+        d = t.dag
+        count = [0]
+
+        def stub_max(func, args, kwargs):
+            x = args[0]
+            if len(args) > 1 or kwargs:
+                res = saved(func, args, kwargs)
+                vals_, idx = res
+                k = count[0]
+                count[0] += 1
+                fresh = new_vars(f'scaler{k}', vals_._v.clone())
+                return torch.return_types.max((fresh, idx))
+            return saved(func, args, kwargs)
+
+        HANDLERS['max'] = stub_max
+        try:
+            mats = new_vars('P', torch.full((4, K, S, S), 0.4, dtype=torch.float64))
+            freqs = new_vars('pi', torch.full((1, S), 0.5, dtype=torch.float64))
+            props = torch.ones(K, 1, 1, dtype=torch.float64)
+            if tip_states:
+                tips = [torch.tensor([i % S]) for i in range(3)] + [None, None]
+            else:
+                tips = [new_vars(f'tip{i}', torch.full((S, N), 0.6, dtype=torch.float64)) for i in range(3)] + [None, None]
+            t.check_values = False  # the stubbed maxima are free symbols
+            val = getattr(tl, kernel)(tips, torch.ones(N, dtype=torch.float64), POST, mats, freqs, props)
+        finally:
+            HANDLERS['max'] = saved
+        vid = sid(val)
+        scal = {n for n in d.topo([vid]) if d.ops[n] == 'var' and d.args[n][0].startswith('scaler')}
+        logs = [n for n in d.topo([vid]) if d.ops[n] == 'uf' and d.args[n][0] == 'log']
+        only = [n for n in logs if set(i for i in d.topo([d.args[n][1]]) if d.ops[i] == 'var') <= scal
+                and any(d.ops[i] == 'var' for i in d.topo([d.args[n][1]]))]
+        tr.regions += 1
+        tr.witness_runs += 1
+        if not only:
+            tr.inconc(f'{label}: no log of the scalers found in the rescaled value')
+            return
+        for n in only:
+            arg = d.args[n][1]
+            try:
+                lines, root, names = fp.lower(d, arg, 'F64')
+            except Exception as e:
+                tr.inconc(f'{label}: cannot lower {d.to_str(arg, 4)} to floating point: {e}')
+                return
+            text = ['(set-logic QF_FP)']
+            seen = set()
+            for _, v in names:
+                if v not in seen:
+                    seen.add(v)
+                    text.append(f'(declare-const {v} (_ FloatingPoint 11 53))')
+                    text.append(f'(assert (and (fp.isNormal {v}) (fp.isPositive {v}) (fp.leq {v} ((_ to_fp 11 53) RNE 1.0))))')
+            text += lines
+            text.append(f'(assert (or (fp.isZero {root}) (fp.isSubnormal {root})))')
+            text.append('(check-sat)')
+            q = '\n'.join(text) + '\n'
+            tr.obligation(q)
+            r = smt.solve_text(q, timeout=120, solvers=('z3', 'z3new'), parallel=True)
+            tr.sample({'case': label, 'log_argument': d.to_str(arg, 4), 'query': 'normal scalers in (0,1] => argument neither zero nor subnormal',
+                       'result': r.status})
+            if r.status == 'sat':
+                ok, detail = rescaled_api_confirmation(tip_states)
+                if ok:
+                    tr.violation(f'{kernel}:scalers-accumulated-as-a-product',
+                                 f'{label}: the argument {d.to_str(arg, 4)} of a log underflows for normal scalers; public API: {detail}',
+                                 {'kernel': kernel})
+                else:
+                    tr.inconc(f'{label}: QF_FP sat for {d.to_str(arg, 4)} but not reproduced through the public API ({detail})')
+            elif r.status != 'unsat':
+                tr.inconc(f'{label}: QF_FP query undecided')
+
+
+def rescaled_api_confirmation(tip_states, n=700):
+    """a tree large enough that the product of all scalers underflows: the rescaled path evaluated twice (second time
+    after a parameter update) must stay finite and agree with a log-space reference"""
+    import threading
+
+    sys.setrecursionlimit(1000000)
+    res = {}
+
+    def work():
+        import torchtree.evolution.tree_likelihood  # noqa
+
+        names = [f't{i}' for i in range(n)]
+        nw = '(' + names[0] + ',' + names[1] + ')'
+        for k in range(2, n):
+            nw = '(' + nw + ',' + names[k] + ')'
+        tree = {'id': 'tree', 'type': 'UnRootedTreeModel', 'newick': nw + ';',
+                'branch_lengths': {'id': 'tree.blens', 'type': 'Parameter', 'tensor': [2.0] * (2 * n - 3)}, 'taxa': cm.taxa_json(n)}
+        like = {'id': 'like', 'type': 'TreeLikelihoodModel', 'tree_model': tree, 'site_model': {'id': 's', 'type': 'ConstantSiteModel'},
+                'substitution_model': {'id': 'm', 'type': 'JC69'}, 'use_tip_states': tip_states,
+                'site_pattern': {'id': 'sp', 'type': 'SitePattern', 'alignment': cm.alignment_json({f't{i}': 'A' for i in range(n)}, taxa='taxa')}}
+        l, dic = cm.build(like)
+        dic['tree.blens'].tensor = dic['tree.blens'].tensor.to(torch.float64)
+        v1 = float(l())
+        dic['tree.blens'].tensor = dic['tree.blens'].tensor * 1.0001
+        v2 = float(l())
+        # reference: per-taxon increment is constant far from the ends, so v/n is stable: compare with a smaller tree scaled
+        res['v'] = (v1, v2, l.rescale)
+
+    old = threading.stack_size(512 * 1024 * 1024)
+    th = threading.Thread(target=work)
+    th.start()
+    th.join()
+    threading.stack_size(old)
+    v1, v2, resc = res.get('v', (0.0, 0.0, False))
+    if not (math.isfinite(v1) and math.isfinite(v2)) or abs(v2 - v1) > 1e-2 * abs(v1):
+        return True, f'JC69 caterpillar with {n} taxa: first evaluation {v1}, evaluation after a 0.01% branch-length change {v2} (rescale={resc})'
+    return False, f'evaluations {v1}, {v2} finite and consistent'
+
+
 def run_task(task, tr):
-    {'algebra': algebra_task, 'history': history_task, 'fp': fp_task}[task[0]](task, tr)
+    {'algebra': algebra_task, 'history': history_task, 'fp': fp_task, 'fpscalers': fpscalers_task}[task[0]](task, tr)
 
 
 def tasks_for(tier):
@@ -438,7 +577,12 @@ def tasks_for(tier):
             ts.append(('history', bits, True, False))
         if tier == 'thorough' or bits in ((1, 0), (1, 1)):
             ts.append(('history', bits, False, True))
+    # batched histories in which only ONE of the two samples underflows
+    ts.append(('history', ((True, False), (False, False)), False, True))
+    ts.append(('history', ((False, True), (True, True)), True, True))
     ts.append(('fp', False, 300))
+    ts.append(('fpscalers', 'calculate_treelikelihood_discrete_rescaled'))
+    ts.append(('fpscalers', 'calculate_treelikelihood_tip_states_discrete_rescaled'))
     if tier == 'thorough':
         ts.append(('fp', True, 1200))
     return ts
